@@ -496,7 +496,7 @@ pub fn run(ctx: &Ctx) -> Result<Run, String> {
     }
     frames(&mut stats);
     direct_encodings(&mut stats);
-    let depth = ctx.tier.pick(3, 4);
+    let depth = ctx.tier.pick(3, 6);
     let mut states = 0;
     let mut transitions = 0;
     for memory in [false, true] {
